@@ -102,6 +102,15 @@ func (C12) Gen(r *simrt.RNG, tier string) core.Case {
 			if redef >= 0 && r.Chance(2, 3) {
 				op = world.Op{Kind: world.OpCallRedef, Redef: redef, Thread: t}
 			}
+			if op.Kind == world.OpCall && r.Chance(1, 10) {
+				// a call with an option that cannot be applied fails on its own; whatever it
+				// had set up by then must not leak into the calls of the other threads
+				w.Args = append(w.Args, world.ArgSpec{Kind: world.ArgNonFunc})
+				op.Args = append(append([]int{}, base...), len(w.Args)-1)
+				if r.Bool() {
+					op.Thread = -1 // ...or it happened earlier, on the main thread
+				}
+			}
 			w.Ops = append(w.Ops, op)
 		}
 	}
@@ -131,7 +140,7 @@ func c12Valid(w world.World) bool {
 	}
 	for _, a := range w.Args {
 		switch a.Kind {
-		case world.ArgNilOpt, world.ArgNonFunc, world.ArgNilConv:
+		case world.ArgNilOpt, world.ArgNilConv:
 			return false
 		}
 		if a.Kind == world.ArgGen && a.Gen.Fault != 0 {
